@@ -529,9 +529,9 @@ pub fn property() -> Property {
         ],
         both_profiles: false,
         subs: vec![
-            sub("csr/history", 60_000, 1_500_000, c_strategy, c_run),
-            sub("csr/from_sorted_edges", 60_000, 1_500_000, s_strategy, s_run),
-            sub("list/history", 40_000, 1_000_000, l_strategy, l_run),
+            sub("csr/history", 200_000, 3_000_000, c_strategy, c_run),
+            sub("csr/from_sorted_edges", 600_000, 20_000_000, s_strategy, s_run),
+            sub("list/history", 300_000, 8_000_000, l_strategy, l_run),
         ],
     }
 }
